@@ -1283,8 +1283,10 @@ func (a *alertState) percentChange() float64 {
 	weight := (maxWeight / weightDiff)
 	step := (maxWeight - weight) / float64(l-1)
 	for i := 0; i < l-1; i++ {
-		// get current index
-		c := (i + a.idx) % l
+		// get current index: the comparisons run over the adjacent pairs of the history in
+		// chronological order, from the second oldest entry (the oldest is at idx+1) up to the
+		// newest (at idx), so that the newest state change gets the highest weight.
+		c := (i + a.idx + 2) % l
 		// get previous index
 		p := c - 1
 		// check for wrap around
